@@ -490,7 +490,7 @@ def prefix(case, i):
 
 # ---------------------------------------------------------------------------
 def run(ctx):
-    core.check_props(ctx, "C20.v", THEOREMS)
+    from concurrent.futures import ThreadPoolExecutor
     fp, n = core.fingerprint(core.REPO + "/src/pymoca/backends/casadi/api.py",
                              {"load_model", "transfer_model", "save_model", "_compile_model"})
     ctx.notes["source_fingerprint"] = {"api.py:load_model,transfer_model,save_model,_compile_model": fp}
@@ -502,8 +502,7 @@ def run(ctx):
         ctx.oblige("tie:ast-probe(api.py load_model/transfer_model/save_model, _options.py)", False, repr(e))
         tab = dict(FALLBACK_TABLE)
     ctx.notes["regenerated_table"] = {k: tab[k] for k in ("op", "excl", "vcheck", "keys")}
-    tie(ctx, tab)
-    # S3
+    # S3 inputs (the children run while coqc checks Props and the tie)
     cases = directed(tab)
     n_dir = len(cases)
     n_core, n_lib, n_opt, n_noc = ctx.scaled((80, 25, 8, 8), (1800, 400, 150, 150))
@@ -511,7 +510,17 @@ def run(ctx):
     for stream, k in (("core", n_core), ("lib", n_lib), ("optout", n_opt), ("nocache", n_noc)):
         for _ in range(k):
             cases.append(gen_history(ctx.rng, maxops, stream))
-    results = run_parallel(ctx, cases)
+    import time
+    ph, t0 = {}, time.time()
+    with ThreadPoolExecutor(max_workers=1) as ex:
+        fut = ex.submit(run_parallel, ctx, cases)
+        core.check_props(ctx, "C20.v", THEOREMS)      # S2
+        ph["props"] = round(time.time() - t0, 1)
+        tie(ctx, tab)
+        ph["props+tie"] = round(time.time() - t0, 1)
+        results = fut.result()
+    ph["props+tie|children"] = round(time.time() - t0, 1)
+    ctx.notes["phase_s"] = ph
     # (a) oracle
     dist = {"edit": 0, "add": 0, "opts": 0, "ver": 0, "transfer": 0, "noise": 0}
     seen = {"loaded": 0, "recompiled": 0, "raised": 0, "lib_edits_in_view": 0, "claimed_calls": 0}
@@ -540,6 +549,7 @@ def run(ctx):
            + "".join("Definition %s : opts := %s.\n" % (n, t) for t, n in valtab.get("__defs__", {}).items()))
     bad = core.coq_eval_cases(ctx, "hist", pre, "case", enc, "check_case gcfg", shard=ctx.scaled(45, 150))
     mism = list(range(len(cases))) if bad is None else [idx[j] for j in bad]
+    ph["+oracle+correspondence"] = round(time.time() - t0, 1)
     crashed = [i for i, r in enumerate(results) if "calls" not in r]
     ctx.oblige("correspondence:model-vs-transfer_model", not mism and not crashed,
                "mismatching histories: %s; not replayable: %s" % (mism[:10], crashed[:5]))
